@@ -159,6 +159,15 @@ fn sched_value(s: usize, i: usize) -> f64 {
             }
         }
         4 => [5e-324, 0.0, -0.0, f64::MIN_POSITIVE, -5e-324, 1.0][i % 6],
+        6 => f64::NAN,
+        7 => {
+            // NaN only in the second field (high) of each bar: i = call*5 + field
+            if i % 5 == 1 {
+                f64::NAN
+            } else {
+                ord[i % 7]
+            }
+        }
         _ => {
             if i % 2 == 0 {
                 SPECIALS[(i / 2) % SPECIALS.len()]
@@ -187,7 +196,7 @@ fn sweep_case(kind: Kind, n: usize, s: usize, reset_phase: usize) -> Case {
     ops.push(TOp::Debug);
     let mut cfg = cfg_small(kind, n);
     if kind.has_mult() {
-        cfg.m = X([2.0, 0.0, -3.0, 1e300, f64::NAN, f64::INFINITY][s]);
+        cfg.m = X([2.0, 0.0, -3.0, 1e300, f64::NAN, f64::INFINITY, 2.0, 1.5][s]);
     }
     Case { cfg, ops }
 }
@@ -219,7 +228,7 @@ fn strategy(cap: usize, maxops: usize) -> BoxedStrategy<Case> {
 }
 
 pub fn run(g: &mut Global) {
-    g.rule = "sweep (exhaustive over its index space): all 22 indicators x every period 1..=64 x 6 value schedules (ordinary, NaN every third, alternating +-inf, +-f64::MAX, subnormals and signed zeros, rotating specials; bars with five independent fields, scalar and bar paths interleaved, multipliers 2/0/-3/1e300/NaN/inf) x a reset injected at every phase of the ring (or none), each run for 3*period+3 calls plus clone, serialize, Display, Debug; random: proptest sequences of Next(scalar or raw bar with special-valued fields) | Reset | Clone | Display | Debug | Serialize for periods up to 4096. Oracle: every call returns (catch_unwind around each call into ta; harness built with overflow checks and debug assertions). Non-trivial = the sequence contains a non-finite or extreme value followed by at least period+1 further calls; distinct by hash of (kind, parameters, operations).".into();
+    g.rule = "sweep (exhaustive over its index space): all 22 indicators x every period 1..=64 x 8 value schedules (ordinary, NaN every third, alternating +-inf, +-f64::MAX, subnormals and signed zeros, rotating specials, all-NaN flood, NaN in every high; bars with five independent fields, scalar and bar paths interleaved, multipliers 2/0/-3/1e300/NaN/inf) x a reset injected at every phase of the ring (or none), each run for 3*period+3 calls plus clone, serialize, Display, Debug; random: proptest sequences of Next(scalar or raw bar with special-valued fields) | Reset | Clone | Display | Debug | Serialize for periods up to 4096. Oracle: every call returns (catch_unwind around each call into ta; harness built with overflow checks and debug assertions). Non-trivial = the sequence contains a non-finite or extreme value followed by at least period+1 further calls; distinct by hash of (kind, parameters, operations).".into();
     g.assumptions = vec![
         "termination is watched by a process watchdog: a hang ends the run with exit 2 (inconclusive), not with a violation".into(),
         "windowed periods are limited to 4096 (allocation size), allocation-free ones are covered by C11 up to usize::MAX".into(),
@@ -227,16 +236,46 @@ pub fn run(g: &mut Global) {
     let phases = 67u64; // 0 = no reset, 1..=66 = reset before call n+phase-1 (ignored when past the end)
     g.exhaustive(
         "sweep",
-        22 * 64 * 6 * phases,
+        22 * 64 * 8 * phases,
         &move |i| {
             let ph = (i % phases) as usize;
             let r = i / phases;
-            let s = (r % 6) as usize;
-            let r = r / 6;
+            let s = (r % 8) as usize;
+            let r = r / 8;
             let n = (r % 64) as usize + 1;
             let kind = ALL_KINDS[(r / 64) as usize];
             let ph = if ph > 2 * n + 3 { 0 } else { ph };
             sweep_case(kind, n, s, ph)
+        },
+        &check,
+    );
+    // larger structural periods (around powers of two and block sizes), every schedule, a few reset phases
+    const BIGP: [usize; 14] = [65, 100, 127, 128, 129, 130, 192, 200, 255, 256, 257, 300, 513, 1000];
+    g.exhaustive(
+        "sweep_large_periods",
+        22 * 14 * 8 * 4,
+        &|i| {
+            let ph = [0usize, 1, 2, 7][(i % 4) as usize];
+            let r = i / 4;
+            let s = (r % 8) as usize;
+            let r = r / 8;
+            let n = BIGP[(r % 14) as usize];
+            let kind = ALL_KINDS[(r / 14) as usize];
+            sweep_case(kind, n, s, if ph == 7 { n / 2 } else { ph })
+        },
+        &check,
+    );
+    // very many calls on one instance (beyond 2^16 turns of the ring for periods 1..=4)
+    g.exhaustive(
+        "many_calls",
+        22 * 4 * 2,
+        &|i| {
+            let s = [0usize, 5][(i % 2) as usize];
+            let n = ((i / 2) % 4) as usize + 1;
+            let kind = ALL_KINDS[(i / 8) as usize];
+            let calls = 66_000 * n + 50;
+            let ops = (0..calls).map(|c| TOp::Next(Inp { bar: RawBar { o: sched_value(s, c * 5), h: sched_value(s, c * 5 + 1), l: sched_value(s, c * 5 + 2), c: sched_value(s, c * 5 + 3), v: sched_value(s, c * 5 + 4) }, scalar: c % 3 != 2 })).collect();
+            Case { cfg: cfg_small(kind, n), ops }
         },
         &check,
     );
